@@ -389,35 +389,43 @@ func doMapOrder(o *opts) map[string]any {
 	// order (the processes merely drew different native orders). A difference
 	// between the plain and the instrumented build that the exploration cannot
 	// account for means the instrumentation changed behaviour: harness error.
-	depends := map[string]bool{}
-	for _, v := range vs {
+	depends := map[string]int{} // "program|stage" -> index of the violation
+	for i, v := range vs {
 		// "map order changes output: <stage>: <program>: sites=..."
 		if rest, ok := strings.CutPrefix(v.Key, "map order changes output: "); ok {
 			if parts := strings.SplitN(rest, ": ", 3); len(parts) == 3 {
-				depends[parts[1]+"|"+parts[0]] = true
+				depends[parts[1]+"|"+parts[0]] = i
 			}
 		}
 	}
 	var unexplained []string
+	seenAcross := map[int][]string{}
 	for _, k := range passDiff {
-		prog, _, _ := strings.Cut(k, "|")
-		if depends[k] || depends[prog+"|lower"] {
-			vs = append(vs, violation{Key: "output differs between fresh processes: " + k, Count: 1,
-				Detail: "fresh processes compiling " + k + " with identical options produced different output (digests " + dg[0][k] + " / " + dg[1][k] + " / " + dg[2][k] + "); the order exploration attributes it to map iteration order"})
+		prog, stage, _ := strings.Cut(k, "|")
+		if i, ok := depends[k]; ok {
+			seenAcross[i] = append(seenAcross[i], stage)
+		} else if i, ok := depends[prog+"|lower"]; ok {
+			seenAcross[i] = append(seenAcross[i], stage)
 		} else {
 			unexplained = append(unexplained, k)
 		}
+	}
+	for i, st := range seenAcross {
+		vs[i].Detail += fmt.Sprintf("; the dependence also showed without any harness-chosen order: three fresh processes (two plain builds, one instrumented in pass-through) disagreed on the output of stages %v", st)
 	}
 	if len(unexplained) > 0 || len(dg[2]) != len(dg[0]) {
 		fatal(fmt.Errorf("outputs differ between the plain and the instrumented (pass-through) build, or between two plain processes, on %d outputs that the map-order exploration does not explain, e.g. %v", len(unexplained), unexplained[:min(5, len(unexplained))]))
 	}
 	vs = mergeViolations(vs)
 	return map[string]any{
-		"ok": len(vs) == 0, "violations": vs, "exhaustive": !tot.RotCapHit,
+		"ok": len(vs) == 0, "violations": vs,
+		// exhaustive: every rotation of every site reached with >= 3 keys was run (thorough tier, cap not hit).
+		"exhaustive": o.tier == "thorough" && !tot.RotCapHit,
+		"orders":     map[string]string{"quick": "native, ascending, descending, rotation 1, rotation n/2", "thorough": "native, ascending, descending, every rotation 1..n-1"}[o.tier],
 		"counts": map[string]any{
 			"programs": tot.Programs, "lower_failures": tot.LowerFailures, "stage_runs": tot.Runs, "runs_per_order": tot.PerOrder,
 			"distinct_outputs": tot.Outcomes, "map_range_sites": len(rows), "sites_exercised_2plus": ex2, "sites_exercised_3plus": ex3,
-			"sites_unexercised": len(unex), "passthrough_outputs_compared": len(dg[0]), "rotation_cap": 24, "rotation_cap_hit": tot.RotCapHit,
+			"sites_unexercised": len(unex), "passthrough_outputs_compared": len(dg[0]), "rotation_cap_thorough": 1024, "rotation_cap_hit": tot.RotCapHit,
 		},
 		"unexercised_sites": unex,
 		"sites":             rows,
@@ -718,10 +726,8 @@ func doRace(o *opts) map[string]any {
 		head := strings.SplitN(m, " output ", 2)[0]
 		parts := strings.SplitN(head, "|", 3)
 		key := "free-running output differs from solo: " + head
-		if len(parts) == 3 {
-			if i := strings.LastIndex(head, "("); i >= 0 {
-				key = fmt.Sprintf("free-running output differs from solo: %s: %s: %s", strings.TrimSuffix(head[i+1:], ")"), parts[0], parts[1])
-			}
+		if m := regexp.MustCompile(`thread \d+ \(([a-z]+)`).FindStringSubmatch(head); m != nil && len(parts) == 3 {
+			key = fmt.Sprintf("free-running output differs from solo: %s: %s: %s", m[1], parts[0], parts[1])
 		}
 		vs = append(vs, violation{Key: key, Detail: m, Count: 1})
 	}
